@@ -110,11 +110,11 @@ CHECKS = {
     },
     "C18": {
         "groups": [
-            {"pkg": "Havoc/pkg/profile/yaotl/hclsyntax", "entries": ["H_c18_template"], "shards": 7, "flags": ["-tags", "nohint", "-init", "Havoc/pkg/profile/yaotl,golang.org/x/text/unicode/norm,github.com/zclconf/go-cty/...,math/big,github.com/agext/levenshtein"]},
+            {"pkg": "Havoc/pkg/profile/yaotl/hclsyntax", "entries": ["H_c18_template"], "shards": 10, "flags": ["-tags", "nohint", "-init", "Havoc/pkg/profile/yaotl,golang.org/x/text/unicode/norm,github.com/zclconf/go-cty/...,math/big,github.com/agext/levenshtein"]},
             {"pkg": "Havoc/pkg/profile/yaotl/hclsyntax", "entries": ["H_c18_access"], "shards": 6, "flags": ["-tags", "nohint", "-init", "Havoc/pkg/profile/yaotl,golang.org/x/text/unicode/norm,github.com/zclconf/go-cty/...,math/big,github.com/agext/levenshtein"]},
             {"pkg": "Havoc/pkg/profile/yaotl/hclsyntax", "entries": ["H_c18_binary"], "shards": 4, "flags": ["-tags", "nohint", "-init", "Havoc/pkg/profile/yaotl,golang.org/x/text/unicode/norm,github.com/zclconf/go-cty/...,math/big,github.com/agext/levenshtein"]},
         ],
-        "bounds": "binary operators: x S1 y S2 z where each operator slot is two arbitrary bytes (all 13 binary operators, either blank placement for one-character operators) over four operand environments (numbers 12,4,2; 7,7,3; number/bool/number; three booleans), as written and with redundant parentheses around the sub-expression that binds first: value prescribed by the six precedence levels, left associativity and the typing rules, or an error diagnostic for ill-typed / division by zero. Access: one arbitrary digit as a source byte in tuple index, attribute name, string key, conditional, for-expression filter and index into a parenthesised splat result. Templates: arbitrary literal characters and an arbitrary two-character ASCII string variable in interpolation, strip markers, if/else, if without else, for directive, heredoc and indented heredoc.",
+        "bounds": "binary operators: x S1 y S2 z where each operator slot is two arbitrary bytes (all 13 binary operators, either blank placement for one-character operators) over four operand environments (numbers 12,4,2; 7,7,3; number/bool/number; three booleans), as written and with redundant parentheses around the sub-expression that binds first: value prescribed by the six precedence levels, left associativity and the typing rules, or an error diagnostic for ill-typed / division by zero. Access: one arbitrary digit as a source byte in tuple index, attribute name, string key, conditional, for-expression filter and index into a parenthesised splat result. Templates: arbitrary literal characters and an arbitrary two-character ASCII string variable in interpolation, strip markers (next to a literal, and separated from it by another sequence), if/else, if without else, for directive, heredoc and indented heredoc.",
         "outside": "expression trees beyond the listed shapes (nesting deeper than two operators, function calls, user functions, try/can), numbers other than small integers (quotients without finite binary expansion are not compared), unknown and null values, marks, for-expressions with grouping, object-for, non-ASCII text, equality across collection types; the reference semantics are transcribed from the HCL native syntax specification in the harness",
         "min_completed": 3,
     },
@@ -129,11 +129,11 @@ CHECKS = {
     "C20": {
         "groups": [
             {"pkg": "Havoc/pkg/profile/yaotl/hclwrite", "with": ["Havoc/pkg/profile/yaotl/hclsyntax"], "entries": ["H_c20_short"], "shards": 4, "flags": ["-tags", "nohint", "-init", "Havoc/pkg/profile/yaotl,golang.org/x/text/unicode/norm,github.com/zclconf/go-cty/...,math/big,github.com/agext/levenshtein"]},
-            {"pkg": "Havoc/pkg/profile/yaotl/hclwrite", "with": ["Havoc/pkg/profile/yaotl/hclsyntax"], "entries": ["H_c20_edit"], "shards": 6, "flags": ["-tags", "nohint", "-init", "Havoc/pkg/profile/yaotl,golang.org/x/text/unicode/norm,github.com/zclconf/go-cty/...,math/big,github.com/agext/levenshtein"]},
-            {"pkg": "Havoc/pkg/profile/yaotl/hclwrite", "with": ["Havoc/pkg/profile/yaotl/hclsyntax"], "entries": ["H_c20_mutate"], "shards": 12, "flags": ["-tags", "nohint", "-init", "Havoc/pkg/profile/yaotl,golang.org/x/text/unicode/norm,github.com/zclconf/go-cty/...,math/big,github.com/agext/levenshtein"]},
+            {"pkg": "Havoc/pkg/profile/yaotl/hclwrite", "with": ["Havoc/pkg/profile/yaotl/hclsyntax"], "entries": ["H_c20_edit"], "shards": 8, "flags": ["-tags", "nohint", "-init", "Havoc/pkg/profile/yaotl,golang.org/x/text/unicode/norm,github.com/zclconf/go-cty/...,math/big,github.com/agext/levenshtein"]},
+            {"pkg": "Havoc/pkg/profile/yaotl/hclwrite", "with": ["Havoc/pkg/profile/yaotl/hclsyntax"], "entries": ["H_c20_mutate"], "shards": 16, "flags": ["-tags", "nohint", "-init", "Havoc/pkg/profile/yaotl,golang.org/x/text/unicode/norm,github.com/zclconf/go-cty/...,math/big,github.com/agext/levenshtein"]},
         ],
-        "bounds": "short files: every byte string of length 0..2 (thorough 0..3) that is a syntactically valid file; mutated files: every single-byte mutation (any position, any byte value) of 3 well-formed sources of 55..75 bytes (three comment styles, labelled and nested blocks, lists, objects, templates with interpolation and if-directives, plain and indented heredocs, conditionals, splats, for-expressions, tabs and odd spacing) that is still a valid file: serialising the loaded tokens reproduces the input byte for byte (a tab between tokens comes back as a space), Format changes nothing but spaces and tabs, Format is idempotent, the formatted file is still valid. Programmatic edits: one edit out of {set an existing attribute, set a new attribute, remove an attribute, remove an unknown attribute, append a block with a label, remove a block} with an arbitrary 7-bit string of 0..2 (thorough 0..3) characters as value or label, on a file with a free-standing comment, a line comment, three attributes and a labelled block: the output re-parses, shows exactly that change, keeps the values of untouched items and both comments.",
-        "outside": "files longer than the listed sources and multi-byte mutations; sequences of more than one edit; non-ASCII values in edits; 'the formatted file decodes to the same values' beyond staying valid (gohcl/reflection); gohcl.EncodeIntoBody (reflection); grapheme segmentation is the deterministic one-rune-per-cluster model (combining marks outside); did-you-mean hints stubbed",
+        "bounds": "short files: every byte string of length 0..2 (thorough 0..3) that is a syntactically valid file; mutated files: every single-byte mutation (any position, any byte value) of 4 well-formed sources of 55..75 bytes (three comment styles, labelled and nested blocks, lists, objects, templates with interpolation and if-directives, plain and indented heredocs, conditionals, splats, for-expressions, tabs and odd spacing) that is still a valid file: serialising the loaded tokens reproduces the input byte for byte (a tab between tokens comes back as a space), Format changes nothing but spaces and tabs, Format is idempotent, the formatted file is still valid. Programmatic edits: every sequence of 1..2 edits out of {set attribute a, set the last attribute c, set a new attribute n, remove a, remove c (the last item), remove an unknown attribute, append a block with a label, remove the first block} with an arbitrary 7-bit string of 0..1 (thorough 0..2) characters as value or label, on a file with a free-standing comment, a line comment, two attributes and a labelled block: the output re-parses, shows exactly those changes, keeps the values of untouched items and their comments. Formatting additionally keeps every attribute value that evaluates (variables bound in the harness) equal before and after.",
+        "outside": "files longer than the listed sources and multi-byte mutations; sequences of more than one edit; non-ASCII values in edits; decoding the formatted file through gohcl (reflection; hclsyntax-level values are compared); gohcl.EncodeIntoBody (reflection); grapheme segmentation is the deterministic one-rune-per-cluster model (combining marks outside); did-you-mean hints stubbed",
         "min_completed": 3,
     },
     "C14": {
